@@ -394,6 +394,14 @@ extern "C" int SSL_do_handshake(SSL *ssl)
     rearm();
     return r;
   }
+  if (f.kind == 'e')
+  {
+    // an injected fatal handshake failure (the real call is not made)
+    t_injErr = SSL_ERROR_SSL;
+    cnt("SSL_do_handshake_inj_error");
+    tok("H:e");
+    return -1;
+  }
   r = real(ssl);
   if (r == 1) c = "d";
   else
